@@ -13,10 +13,11 @@ SET_KINDS = ["setTextVector", "setNumberVector", "setSwitchVector", "setLightVec
 POLICIES = ["Never", "Also", "Only"]
 
 
-def make_message(kind, dev, value=None):
+def make_message(kind, dev, value=None, named=False):
     import indi.message as M
     if kind == "getProperties":
-        return M.GetProperties(version="1.7", device=dev)
+        # `named`: the request is for ONE property - of the named device or, without a device, of every device
+        return M.GetProperties(version="1.7", device=dev, name="P") if named else M.GetProperties(version="1.7", device=dev)
     if kind == "enableBLOB":
         return M.EnableBLOB(device=dev, value=value)
     if kind == "pingReply":
@@ -213,11 +214,11 @@ class Real:
                 self.router.process_message(make_message("enableBLOB", op[2], op[3]), sender=self.cli[op[1]])
             elif kind == "csend":
                 sender = self.cli[op[1]] if op[1] is not None else None
-                msg = make_message(op[2], op[3])
+                msg = make_message(op[2], op[3], named=len(op) > 4)
                 self._msg = msg
                 self.router.process_message(msg, sender=sender) if sender is not None else self.router.process_message(msg)
             elif kind == "dsend":
-                msg = make_message(op[2], op[3])
+                msg = make_message(op[2], op[3], named=len(op) > 4)
                 self._msg = msg
                 self.router.process_message(msg, sender=self.device_object(op[1]))
             else:
@@ -279,6 +280,9 @@ def send_ops(uni, model, extra_names=("U", "")):
     for c in list(model.clients) + [None]:
         for name in cnames:
             ops.append(("csend", c, "getProperties", name))
+        # getProperties for one property: of one device, and - no device given - of every device
+        ops.append(("csend", c, "getProperties", None, "named"))
+        ops.append(("csend", c, "getProperties", uni.names[0], "named"))
         for k in NEW_KINDS:
             for name in list(uni.names) + list(extra_names):
                 ops.append(("csend", c, k, name))
